@@ -59,7 +59,10 @@ func (comp) Gen(prop string, rng *rand.Rand, tier string) *core.History {
 		default:
 			n = 2 + uint64(rng.Intn(70000))
 		}
-		if rng.Intn(5) == 0 {
+		if rng.Intn(12) == 0 {
+			z := core.Pick(rng, []int64{-2147483648, -7, -1, 0, 1, 2, 3, 2147483647})
+			h.Add(3, fmt.Sprintf("constructor n=%d", z), core.I(z))
+		} else if rng.Intn(5) == 0 {
 			h.Add(2, fmt.Sprintf("fields n=%d", n), core.N(n))
 		} else {
 			h.Add(1, fmt.Sprintf("compute_id n=%d", n), core.N(n), core.B(randKey(rng)))
@@ -96,6 +99,18 @@ func (comp) Run(h *core.History, scratch string) *core.Result {
 	res := &core.Result{}
 	for i, op := range h.Ops {
 		a := op.Parsed()
+		if op.Code == 3 {
+			// the constructor's verdict on a (possibly negative) int32 count
+			z := a[0].I64()
+			_, cerr := sharded.NewShardIDProvider(int32(z))
+			res.AddObs(core.Lbl(5, core.Bool(cerr == nil)))
+			res.Hit("constructor-verdict")
+			// monitor (C19: total and in range for every count the constructor accepts): a count below 1 cannot be routed in range
+			if cerr == nil && z < 1 {
+				res.Failf("C19", i, "NewShardIDProvider(%d) accepted a shard count for which no id can be in range", z)
+			}
+			continue
+		}
 		n := a[0].U64()
 		sp, err := sharded.NewShardIDProvider(int32(n))
 		if err != nil {
